@@ -130,7 +130,7 @@ func formatSampleRatioOperand(sb *strings.Builder, expr ast.Expression) {
 			fmt.Fprintf(sb, "%v", v)
 		}
 	} else {
-		fmt.Fprintf(sb, "%v", expr)
+		sb.WriteString(exprFallbackText(expr))
 	}
 }
 
